@@ -33,6 +33,7 @@ def nontrivial(case):
 SPEC = {
     "prop": "c10",
     "mod": "ParolModel.Props.C10",
+    "more_mods": ["ParolModel.Props.C10b"],
     "files": FILES,
     "oracle_req": oracle_req,
     "nontrivial": nontrivial,
@@ -45,13 +46,13 @@ SPEC = {
     "assumptions": [
         "the Lean functions of Model/LeftFactor.lean mirror left_factor/find_prefix/find_longest_prefixes/mod_factor/apply_rule_transformation; agreement is observed on the explored grammars",
         "symbols are compared structurally, attributes included (as #[derive(PartialEq)] does): `B^` and `B` are different symbols for left factoring, so 'same first symbol' means the same symbol with the same attribute",
-        "termination is delivered with fuel: the theorems speak about runs that end within the fuel; the driver reports `fuel-exhausted` otherwise (never observed)",
+        "termination is a theorem (Props/C10b: left_factor_terminates_bound, fuel |rs|*total rhs length + 1 suffices; the driver fuel suffices) for every drain order that is a permutation of the map — which the HashMap drain is; for an arbitrary `ord` function it is false (left_factor_terminates_needs_perm)",
     ],
 }
 
 CLAIM = {
     "category": "proof",
-    "text": "Lean theorems about the model `leftFactor` (mirror of left_factor with the repaired find_prefix: first-occurring largest group wins): factor_step_preserves_lang (one factor_out_prefix step preserves the language for every prefix shared or not), left_factor_preserves_lang, left_factor_no_common_first (on exit no two non-empty alternatives of a non-terminal start with the same symbol), helper names fresh; termination with fuel: one round never fails (factor_out_total, using that generate_name is total), results are fuel-independent once the fuel suffices (left_factor_terminates_partial); a bound on the number of rounds is NOT proved (LeftFactorTerminates is stated as a def). Tied to the code by exact differential runs on the public left_factor; every implementation reply is also judged by the oracle (member both ways on all strings ≤ n, first-symbol clash, name clash).",
+    "text": "Lean theorems about the model `leftFactor` (mirror of left_factor with the repaired find_prefix: first-occurring largest group wins): factor_step_preserves_lang (one factor_out_prefix step preserves the language for every prefix shared or not), left_factor_preserves_lang, left_factor_no_common_first (on exit no two non-empty alternatives of a non-terminal start with the same symbol), helper names fresh; termination with fuel: one round never fails (factor_out_total, using that generate_name is total), results are fuel-independent once the fuel suffices (left_factor_terminates_partial); termination (Props/C10b): left_factor_terminates_bound — the measure (sum over pairs of same-lhs rules of their common-prefix length) strictly decreases with every modifying round, fuel |rs|*total rhs length + 1 suffices for every permutation drain order, and left_factor_total: the terminating run leaves no shared first symbol; the unrestricted statement over arbitrary order functions is refuted (left_factor_terminates_needs_perm). Tied to the code by exact differential runs on the public left_factor; every implementation reply is also judged by the oracle (member both ways on all strings ≤ n, first-symbol clash, name clash).",
     "design_ref": "DESIGN.md §6 C10",
     "note": "Trusted: Lean kernel, faithfulness of the hand-written model as observed by the differential run, harness and orchestrator.",
     "technique": "Lean 4 proof over hand-written model + differential correspondence check",
